@@ -60,6 +60,9 @@ type op struct {
 	cost  int // opChoose: fault cost of non-zero answers
 	obj   *uint64
 	eff   func() // opNop: effect applied atomically when scheduled
+	fpFn   func() []*uint64 // dynamic footprint (context cancel: the subtree)
+	ro     bool  // read-only on its objects (independent of other read-only operations on them)
+	global bool  // dependent with every other operation (partial-order reduction)
 
 	// results
 	rval     any
@@ -88,7 +91,30 @@ type G struct {
 	path    []int32
 	idh     uint64
 	sitePC  uintptr
+	parent  *G
+	Index   int // creation order within the execution
 }
+
+// IDH is a schedule-independent 64-bit identity of the goroutine.
+func (g *G) IDH() uint64 { return g.idh }
+
+// Parent is the goroutine that spawned g (nil for the body and timer goroutines).
+func (g *G) Parent() *G { return g.parent }
+
+// Done reports whether g has finished.
+func (g *G) Done() bool { return g.done }
+
+// HasPending reports whether g is parked at a visible operation.
+func (g *G) HasPending() bool { return g.pending != nil }
+
+// IsQuiesce reports whether g's pending operation is Quiesce (never co-enabled with anything).
+func (g *G) IsQuiesce() bool { return g.pending != nil && g.pending.kind == opQuiesce }
+
+// Goroutines lists all goroutines of the execution in creation order.
+func (w *World) Goroutines() []*G { return w.gs }
+
+// LastPartners lists the goroutines whose blocked operation was completed by the last transition.
+func (w *World) LastPartners() []*G { return w.lastPartners }
 
 type Policy int
 
@@ -122,6 +148,8 @@ type Chooser interface {
 	// Data picks among n free alternatives (ready select cases, rendez-vous partner, harness Choose).
 	// cost is the fault cost of a non-zero answer.
 	Data(w *World, n int, cost int, what string) int
+	// End is called once when the execution is over, before the goroutines are torn down.
+	End(w *World)
 }
 
 type AliveG struct {
@@ -172,6 +200,9 @@ type World struct {
 	invs    []func() *Failure
 	uuidSeq int
 	atomHash uint64
+	clockEpoch int
+	clockObj uint64
+	lastPartners []*G
 }
 
 const hashSeed = 0x9e3779b97f4a7c15
@@ -216,6 +247,7 @@ func Run(opts Options, ch Chooser, body func()) Result {
 	g0.wake <- struct{}{}
 	<-w.fin
 	w.finishResult()
+	ch.End(w)
 	// teardown: every goroutine that has not exited is released into runtime.Goexit.
 	for _, g := range w.gs {
 		if g.exited {
@@ -243,6 +275,8 @@ func (w *World) newG(parent *G, site string) *G {
 		parent.nspawn++
 	}
 	g.idh = hashStr(g.ID)
+	g.parent = parent
+	g.Index = len(w.gs)
 	w.gs = append(w.gs, g)
 	return g
 }
@@ -493,6 +527,7 @@ func (w *World) decide() *G {
 	}
 	g := a.G
 	w.cur = g
+	w.lastPartners = w.lastPartners[:0]
 	w.apply(g, g.pending)
 	if w.opts.Trace {
 		w.res.Trace = append(w.res.Trace, fmt.Sprintf("%4d g%-8s %-22s %s", w.Steps, g.ID, w.describe(g.pending), g.pending.site))
@@ -526,6 +561,90 @@ func (w *World) describe(o *op) string {
 	return opNames[o.kind]
 }
 
+// CurID identifies the goroutine of the last transition (relevant to the explorer only while it is
+// still enabled: only then does switching away cost a preemption).
+func (w *World) CurID() uint64 { return w.cur.idh }
+
+// Footprint returns the objects the pending operation of g touches (identified by the address of
+// their hash word), whether it only reads them, and whether it must be treated as dependent with
+// everything. Two transitions are independent iff neither is global and their footprints are
+// disjoint or both are read-only.
+func (w *World) Footprint(g *G) (objs []*uint64, ro bool, global bool) {
+	o := g.pending
+	if o == nil {
+		return nil, false, true
+	}
+	switch o.kind {
+	case opNop:
+		if o.global {
+			return nil, false, true
+		}
+		if o.fpFn != nil {
+			return o.fpFn(), false, false
+		}
+		if o.obj != nil {
+			return []*uint64{o.obj}, o.ro, false
+		}
+		return nil, o.ro, false
+	case opChoose:
+		return nil, false, false
+	case opSend, opRecv:
+		if o.ch == nil {
+			return nil, false, false
+		}
+		return []*uint64{&o.ch.hash}, false, false
+	case opSelect:
+		for _, c := range o.cases {
+			if c.ch != nil {
+				objs = append(objs, &c.ch.hash)
+			}
+		}
+		return objs, false, false
+	case opLock:
+		return []*uint64{&o.mu.hash}, false, false
+	case opRLock:
+		return []*uint64{&o.rw.whash}, true, false
+	case opWAnnounce, opWAcquire:
+		return []*uint64{&o.rw.whash}, false, false
+	case opWait:
+		return []*uint64{&o.wg.hash}, false, false
+	case opOnce:
+		return []*uint64{&o.once.hash}, false, false
+	}
+	return nil, false, true
+}
+
+// ParkFootprint lists the unbuffered channels on which g is (newly) parked: arriving at a blocking
+// operation on an unbuffered channel changes what the other side can do (rendez-vous readiness), so it
+// is an effect of the transition that brought g there.
+func (w *World) ParkFootprint(g *G) []*uint64 {
+	o := g.pending
+	if o == nil || g.done {
+		return nil
+	}
+	switch o.kind {
+	case opSend, opRecv:
+		if o.ch != nil && o.ch.cap == 0 {
+			return []*uint64{&o.ch.hash}
+		}
+	case opSelect:
+		var out []*uint64
+		for _, c := range o.cases {
+			if c.ch != nil && c.ch.cap == 0 {
+				out = append(out, &c.ch.hash)
+			}
+		}
+		return out
+	}
+	return nil
+}
+
+// DynamicFootprint reports whether g's pending operation has a footprint that can grow over time.
+func (w *World) DynamicFootprint(g *G) bool { return g.pending != nil && g.pending.fpFn != nil }
+
+// ClockEpoch counts clock advances (the explorer clears its sleep set when it changes).
+func (w *World) ClockEpoch() int { return w.clockEpoch }
+
 // StateKey identifies the happens-before trace of the prefix executed so far.
 func (w *World) StateKey() uint64 {
 	// goroutines are identified by schedule-independent ids, so a commutative combination suffices
@@ -539,7 +658,7 @@ func (w *World) StateKey() uint64 {
 		sum += x
 		xor ^= x * 0x9e3779b97f4a7c15
 	}
-	return mix(uint64(w.now), w.cur.idh, w.monitor, sum, xor, uint64(len(w.gs)))
+	return mix(uint64(w.now), w.monitor, sum, xor, uint64(len(w.gs)))
 }
 
 func (w *World) finishResult() {
@@ -589,7 +708,7 @@ func Observe(format string, args ...any) {
 		return
 	}
 	ev := fmt.Sprintf(format, args...)
-	w.yield(&op{kind: opNop, name: "observe " + ev, eff: func() {
+	w.yield(&op{kind: opNop, name: "observe " + ev, obj: &w.monitor, eff: func() {
 		g := w.cur
 		w.monitor = mix(w.monitor, g.hash, hashStr(ev))
 		g.hash = mix(g.hash, w.monitor)
@@ -632,7 +751,7 @@ func Quiesce() {
 	if w == nil {
 		return
 	}
-	w.yield(&op{kind: opQuiesce})
+	w.yield(&op{kind: opQuiesce, global: true})
 }
 
 // Step returns the number of transitions executed so far (a logical clock for call/return stamps).
